@@ -30,6 +30,19 @@ class GrowingRaw(io.RawIOBase):
         self._seekable = seekable
         self._dribble = dribble        # > 0: never deliver more than this many octets per read
         self.reads = 0
+        self.log = None                # list: record <<kind, a, b, c>> of every read / seek / mark (Trace_Mech)
+        self._mark = 0
+        self.last_failed = 0
+
+    @property
+    def markedPosition(self):
+        return self._mark
+
+    @markedPosition.setter
+    def markedPosition(self, value):
+        self._mark = value
+        if self.log is not None:
+            self.log += [4, value, 0, 0]
 
     def feed(self, data):
         self._buf += data
@@ -45,6 +58,16 @@ class GrowingRaw(io.RawIOBase):
 
     def read(self, n=-1):
         self.reads += 1
+        before = self._pos
+        data = self._read(n)
+        if self.log is not None:
+            got = -1 if data is None else len(data)
+            self.log += [2, -1 if n is None else n, got, before]
+            if n is not None and n > 0 and got < n:
+                self.last_failed = n
+        return data
+
+    def _read(self, n):
         if n == 0:
             return b''
         have = len(self._buf) - self._pos
@@ -68,6 +91,8 @@ class GrowingRaw(io.RawIOBase):
             p = len(self._buf) + off
         if p < 0:
             raise ValueError('negative seek position')
+        if self.log is not None:
+            self.log += [3, p, 0, self._pos]
         self._pos = p
         return p
 
@@ -155,6 +180,9 @@ class Driver:
         self.it = iter(decoder_cls(self.stream, **kw))
         self.fed = 0
         self.ev = []
+        self.mech = [] if kind == 'K3' else None      # mechanism-level events (absolute positions are known for K3 only)
+        if self.mech is not None:
+            self.stream.log = self.mech
         self.nobj = 0
         self.done = False
         self.detail = []
@@ -163,10 +191,14 @@ class Driver:
         self.stream.feed(self.data[self.fed:self.fed + k])
         self.fed += k
         self.ev += [k, 0, 0]
+        if self.mech is not None:
+            self.mech += [1, k, 0, 0]
 
     def close(self):
         self.stream.close_source()
         self.ev += [0, 0, 0]
+        if self.mech is not None:
+            self.mech += [1, 0, 1, 0]
 
     def poll(self):
         code, payload = classify_poll(self.it)
@@ -194,6 +226,8 @@ class Driver:
         if code in (STOP, EOS, ERR, CRASH):
             self.done = True
         self.ev += [code, a, b]
+        if self.mech is not None:
+            self.mech += [5, code, self.stream.last_failed, self.stream.abs_pos]
         return code
 
     def poll_until_blocked(self, limit=None):
@@ -231,7 +265,7 @@ def run_schedule(decoder_cls, data, spec, refs, matcher, kind, parts, close_with
             code = d.poll_until_blocked()
             if d.done:
                 break
-    return d.ev, d.detail
+    return d.ev, d.detail, d.mech
 
 
 def run_k2(decoder_cls, data, spec, refs, matcher, nones, options=None):
